@@ -88,7 +88,7 @@ Definition matches_sent_date (m : msg) (date_str : str) (c : dcmp) : bool :=
   match header_field_values (m_text m) (S_ "Date") with
   | [] => false
   | v :: _ =>
-      match trim_space v with
+      match trim_space (wsp_to_sp v) with
       | [] => false
       | dh =>
           match mail_date dh with
